@@ -95,6 +95,37 @@ def edge_grid(n, lo=1e-4):
     return np.unique(np.concatenate([left, 1 - left]))
 
 
+class Safe(object):
+    """an observation function that reports an exception of the observed code as an observation (the library raising where the
+    property promises a value is a violation, not a failure of the machinery)"""
+
+    def __init__(self, fn):
+        self.fn = fn
+
+    def __call__(self, job):
+        try:
+            return self.fn(job)
+        except Exception as ex:
+            import traceback
+            return {'__raised__': type(ex).__name__, 'trace': traceback.format_exc(limit=-3)[-500:]}
+
+
+def split_raised(ctx, pid, results, jobs, rerun):
+    """report the observations that raised as violations; return the remaining (observations, jobs)"""
+    obs, kept = [], []
+    for r, job in zip(results, jobs):
+        if isinstance(r, dict) and '__raised__' in r:
+            fam, theta = job[0], float(job[2])
+            ctx.case('%s|%.6g' % (fam, theta))
+            ctx.violation('%s|%s|raised-%s|%s' % (pid, fam, r['__raised__'], theta_bucket(fam, theta)),
+                          '%s at theta=%.6g: the library raised %s: %s' % (fam, theta, r['__raised__'], r['trace'][-300:]),
+                          {'fam': fam, 'theta': theta, 'rerun': [rerun, list(job)]})
+        else:
+            obs.append(r)
+            kept.append(job)
+    return obs, kept
+
+
 def run_laws(ctx, name, module, records, timeout=1500):
     """write the observation list, evaluate the module's TraceChecked, return [(index0, [law, ...])]"""
     wd = T.workdir()
